@@ -92,13 +92,14 @@ def run(ctx):
         "rule": "one case = one Anneal() of the real SimpleAnnealer / ElapsedTimeTrackingAnnealer; explorers: a bare explorer on each of "
                 "the three real coolants and the three real explorer configurations (kirkpatrick, suppapitnarm, averaged suppapitnarm) "
                 "on the modumb model, all behind a call-recording / fault-injecting wrapper; N in {0,1,2,7,100} (thorough: "
-                "{0,1,2,3,7,20,100,1000}); 0..3 observers; no fault, Initialise() panicking, and a panic at iteration k (every k for "
+                "{0,1,2,3,7,20,50,100,1000}); 0..3 observers; no fault, Initialise() panicking, and a panic at iteration k (every k for "
                 "N<=7, {1,N,random} above) in TryRandomChange / CoolDown-before-multiply / CoolDown-after-multiply with payload "
                 "error / string / nil (all three for N<=2, one drawn otherwise; thorough: all); a fault scripted beyond the budget; a second "
                 "Anneal() of the same instance; a DeepClone() in a third of the cases; T0 and factor from a palette incl. 0, 1, subnormal, "
                 "1e300, factor 0 / 1 / 1e-200 and random values; out-of-range values (factor > 1, < 0, inf, NaN; T0 inf, negative) forced "
-                "into the kirkpatrick coolant. Compared: the full global log (who, event, iteration, temperature bits), outcome, final "
-                "currentIteration, final temperature. distinct_nontrivial = distinct (annealer, explorer, N, observers, fault) "
+                "into the kirkpatrick coolant. Compared: the full global log (who, event or explorer call, iteration, temperature bits), whether "
+                "Anneal() returned or re-raised the injected value, final currentIteration, final temperature; NOT compared: log lines, relayed "
+                "explorer notes, whether a re-raised error is wrapped. distinct_nontrivial = distinct (annealer, explorer, N, observers, fault) "
                 "configurations with N>0 or an Initialise fault",
         "exhaustive": False,
         "correspondence_shards": nshards,
